@@ -65,21 +65,24 @@ theorem ns_u32In (s : Slice) (a b : Nat) : NS (s.u32In a b) := post_bind_ns (ns_
 theorem ns_u64In (s : Slice) (a b : Nat) : NS (s.u64In a b) := post_bind_ns (ns_sliceR _ _ _) (fun _ _ => ns_u64Here _)
 theorem ns_same {α} (a : α) (v : V) : NS (same a v) := ns_ok _
 
-/-- leaves: constructors and slice reads -/
-macro "post_leaf" : tactic => `(tactic| first
+/-- leaves: constructors and slice reads (reducible transparency: never unfolds a decoder to look for a match) -/
+macro "post_leaf" : tactic => `(tactic| with_reducible (first
   | exact post_err | exact post_panic | exact ns_ok _ | exact ns_pure _ | exact ns_same _ _
   | exact ns_byteAt _ _ | exact ns_fromR _ _ | exact ns_sliceR _ _ _ | exact ns_uptoR _ _
   | exact ns_u16From _ _ | exact ns_u32From _ _ | exact ns_u64From _ _
   | exact ns_u16In _ _ _ | exact ns_u32In _ _ _ | exact ns_u64In _ _ _
   | exact ns_u16Here _ | exact ns_u32Here _ | exact ns_u64Here _
-  | exact ns_ofOption _ | trivial)
+  | exact ns_ofOption _ | trivial))
 
+/-- walk through a straight-line decoder: leaves, the given lemmas (for the calls), `>>=`, `if` / `match` -/
 syntax "post_auto" ("[" term,* "]")? : tactic
 macro_rules
-  | `(tactic| post_auto) => `(tactic| repeat' (first | post_leaf | apply post_bind_ns | intro _ | split))
+  | `(tactic| post_auto) =>
+    `(tactic| repeat' (first | post_leaf | with_reducible apply post_bind_ns | intro _ | split))
   | `(tactic| post_auto [$ts,*]) => do
     let alts ← ts.getElems.mapM fun t => `(tactic| apply $t)
-    `(tactic| repeat' (first | post_leaf | (first $[| $alts:tactic]*) | apply post_bind_ns | intro _ | split))
+    `(tactic| repeat' (first | post_leaf | with_reducible (first $[| $alts:tactic]*)
+        | with_reducible apply post_bind_ns | intro _ | split))
 
 /-- invariant rule for `goLoop`: every iteration keeps `I`, advances the cursor and runs only below `bound` -/
 theorem goLoop_post {σ} (cond : σ → Bool) (cursor : σ → Nat) (body : σ → R σ) (I : σ → Prop) (bound : Nat)
